@@ -7,16 +7,16 @@ package v1
 
 import (
 	"bytes"
-	"os"
-	"time"
 	"fmt"
 	"io"
 	"log"
+	"os"
 	"reflect"
 	"sort"
 	"strings"
 	"sync"
 	"testing"
+	"time"
 	"unsafe"
 
 	lc "github.com/google/licenseclassifier"
